@@ -65,7 +65,13 @@ def run(ctx, prog):
                     return None
                 # opaque result (and_then / map of the callee's Option): it has to be built from the arithmetic's own result
                 t = p.term()
-                return None if apps(t, r'OffsetDateTime::%s$' % nm) else 'result does not derive from self.0.%s(duration.0)' % nm
+                if not apps(t, r'OffsetDateTime::%s$' % nm):
+                    return 'result does not derive from self.0.%s(duration.0)' % nm
+                # ... and has to go through the seconds-truncating range gate (from_unix of the sum's unix seconds): a sum wrapped as it
+                # is keeps a sub-second part (a deserialised Duration can carry one) and is not a canonical whole-second instant
+                if not (apps(t, r'Timestamp::from_unix$') or p.find_calls(r'Timestamp::from_unix$')):
+                    return 'the sum is wrapped without passing through the seconds-truncating range gate'
+                return None
             ca = [c for c in p.find_calls(r'OffsetDateTime::%s$' % nm) if p.took(c, 'Some')]
             if not ca or not (mentions(ca[0].args[0], r'^self$') and mentions(ca[0].args[1], r'^duration$')):
                 return '%s not computed as self.0.%s(duration.0)' % (nm, nm)
